@@ -425,4 +425,6 @@ class Prop:
         return sorted(set(tags))
 
 Prop.required_theorems = [
+    'installed_eq_fold_at_eod', 'installed_eq_fold_pre_refuted', 'drain_runs_parsed', 'rtr_fragmentation_invariant',
+    'rtr_client_progress', 'rtr_client_progress_pre_refuted', 'caches_isolated', 'session_end_clears',
 ]
